@@ -74,6 +74,49 @@ def part_a_long():
     return n, None
 
 
+# ----------------------------------------------------------------------------------- part A'
+def part_a_framing(job):
+    """The check bytes as the *send and receive paths* compute them (header part + payload), with the
+    covered header running through all 65 536 (from-address, packet id) pairs - a bijection onto the CRC
+    register values after the header, so every register state at the header/payload seam is exercised."""
+    gen, lo, hi = job
+    import pyairtouch.comms.socket as S
+    w = RxWorld(gen)
+    reg = w.reg
+    if gen == 4:
+        from pyairtouch.at4.comms.hdr import At4Header as Hdr
+        import pyairtouch.at4.comms.x2B_group_status as st
+        req, typ = st.GroupStatusRequest(), 0x2B
+    else:
+        from pyairtouch.at5.comms.hdr import At5Header as Hdr
+        import pyairtouch.at5.comms.xC0_ctrl_status as c0
+        import pyairtouch.at5.comms.xC021_zone_status as zs
+        req, typ = c0.ControlStatusMessage(zs.ZoneStatusRequest()), 0xC0
+    size = reg.get_encoder(req.message_id).size(req)
+    pol = S.RetryPolicy(0, 30.0)
+    n = 0
+    t = w.net.live()[-1]
+    for frm in range(lo, hi):
+        for pid in range(256):
+            # send path with a caller supplied header (public send_with_header)
+            n0 = len(t.written)
+            w.spawn(w.sock.send_with_header(Hdr(0x80, frm, pid, typ, size), req, pol))
+            w.loop.settle()
+            raw = bytes(t.written[n0:])
+            frames, residue, err = framing.split(gen, raw)
+            n += 1
+            if err or residue or len(frames) != 1 or not frames[0].crc_ok:
+                return n, f"at{gen} send path, header from=0x{frm:02x} id=0x{pid:02x}: check bytes {raw[-2:].hex()} are not CRC-16/MODBUS of address..payload ({raw.hex()})"
+            # receive path: an intact frame of an unknown type with this header must be delivered
+            g0 = len(w.got)
+            t.peer_send(framing.frame(gen, 0xB0, frm, pid, 0x99, bytes([pid, frm])))
+            w.loop.settle()
+            n += 1
+            if len(w.got) != g0 + 1 or len(w.net.conns) != 1:
+                return n, f"at{gen} receive path: intact frame with header from=0x{frm:02x} id=0x{pid:02x} was rejected"
+    return n, None
+
+
 # ----------------------------------------------------------------------------------- part B
 def corpus(gen):
     """One representative console->client frame per message kind: [(name, frame bytes)]."""
@@ -236,6 +279,15 @@ def run(tier, seed, part=None):
     chk.counters["executions"] = calls + n_long
     chk.cov["part_a"] = {"strings_checked": calls + n_long, "two_byte_registers_covered": regs,
                          "register_byte_transitions": 256 * 65536 if regs == 65536 else None}
+    # Part A': the seam between header and payload, on the real send and receive paths
+    fjobs = [(gen, lo, lo + 16) for gen in (4, 5) for lo in range(0, 256, 16)]
+    nf = 0
+    for job, (n, msg) in zip(fjobs, explorer.pool().map(part_a_framing, fjobs, chunksize=1)):
+        nf += n
+        if msg:
+            chk.violation(f"at{job[0]}:frame-checksum-at-header-seam", msg, {"kind": "input", "module": "pvmc.props.c06", "message": msg})
+    chk.cov["part_a_framing"] = {"frames_sent_and_received": nf, "header_register_states": 65536}
+    chk.counters["executions"] += nf
     # Part B
     jobs = []
     for gen in (4, 5):
